@@ -219,6 +219,12 @@ impl Operation {
             .find(|p| p.name.is_empty())
         {
             empty_param.name = name.into();
+        } else {
+            /* the route captures a param the handler doesn't take: it is still a part of the path template */
+            let at = self.parameters.iter().rposition(|p| p.is_path()).map_or(0, |i| i + 1);
+            let mut param = Parameter::in_path(crate::string());
+            param.name = name.into();
+            self.parameters.insert(at, param);
         }
     }
 
